@@ -31,8 +31,49 @@ SHAPES = [
     "two\nlines", "  led by blanks", "  led\n  and more", "\tled by a tab\nnext", "line\n\n  indented\nlast", "a\n  b\n    c",
     'ends with quote"', 'has \"\"\" inside', 'has \"\"\" inside\nand a second line', "ends with backslash\\", "tab\there",
     'say "hi"', "literal \\n backslash-n", "caf\u00e9 \u65e5\u672c", "", " ", "trailing newline\n", "\nleading newline",
-    "trailing blanks   ", "  both  ", "x" * 64 + '"', "multi\n" + "w" * 125 + "\nend", "q " * 58 + "q", "q " * 59 + "q",
+    "trailing blanks   ", "  both  ", "  x\n  y", "  Usage:\n    call it\n  twice", " first\n second", "\tx\n\ty", "  x\n\n  y",
+    "  x\n  y\nz", "  x\n  ", "a\rb", "a\r\nb", "\rlead", "two\r\n  lines\r", "x" * 64 + '"', "multi\n" + "w" * 125 + "\nend", "q " * 58 + "q", "q " * 59 + "q",
 ]
+
+
+def shape_slots(sch):
+    q, c, f, d = sch.types["Query"], sch.types["Color"], sch.types["Filter"], sch.directives["tag"]
+    return [q, q.fields[0], q.fields[0].arguments[0], q.fields[1], c, c.values[0], f, f.fields[0], d, d.arguments[1]]
+
+
+def shape_class(d, indent):
+    """the class of a description that print -> build does not give back"""
+    lines = d.split("\n")
+    rest = [l for l in lines[1:] if l.strip(" \t")]
+    if "\r" in d:
+        return "roundtrip-differs:desc-carriage-return"            # hunt3 C12/3 (fix D3)
+    if lines[0][:1] in (" ", "\t") and rest and all(l[:1] in (" ", "\t") for l in rest):
+        return "roundtrip-differs:desc-indented-block"             # hunt3 C12/1 (fix D1)
+    if any(len(l) > 120 - 2 * len(indent) for l in lines):
+        return "H12:description-rewrapped:text-shapes"
+    return "roundtrip-differs:H5-text-shapes"
+
+
+def shape_roundtrip(ctx, src, sch, o, ind, real):
+    """direct oracle on the uniform shape schemas: the rebuilt schema has the same descriptions and prints the same text"""
+    from py_gql import build_schema
+    d = shape_slots(sch)[0].description
+    detail = {"part": PART, "source": src, "description": d, "opts": o, "real": real}
+    try:
+        sch2 = build_schema(real)
+    except Exception as e:  # noqa
+        why = ("trailing-backslash:H5" if d.endswith("\\") and "\n" not in d else
+               "control-character:H5" if any(ord(ch) < 32 and ch not in "\t\n\r" for ch in d) else type(e).__name__ + ":desc")
+        ctx.fail("unparsable-output:%s-text-shapes" % why, "the printed text of a description shape is rejected (%s)" % type(e).__name__,
+                 detail)
+        return
+    got = [n.description for n in shape_slots(sch2)]
+    if any((g or "") != d for g in got):
+        ctx.fail(shape_class(d, ind), "a description is not preserved by to_string + build_schema: %r -> %r" % (d, got[0]), detail)
+    elif sch2.to_string(**o) != real:
+        ctx.fail("not-a-fixpoint:desc-shapes", "descriptions preserved but the text is not a fixpoint", detail)
+    else:
+        ctx.nontrivial(("shape-roundtrip", d, ind))
 
 
 def shape_cases():
@@ -42,8 +83,7 @@ def shape_cases():
     for k in range(2 * n):
         sch = build_schema(SHAPE_SDL)
         q, c, f, d = sch.types["Query"], sch.types["Color"], sch.types["Filter"], sch.directives["tag"]
-        slots = [q, q.fields[0], q.fields[0].arguments[0], q.fields[1], c, c.values[0], f, f.fields[0], d, d.arguments[1]]
-        for j, node in enumerate(slots):
+        for j, node in enumerate(shape_slots(sch)):
             node.description = SHAPES[(k + 3 * j) % n] if k < n else SHAPES[k - n]
         yield ("description-shapes:%s:%d" % ("mixed" if k < n else "uniform", k % n), sch)
 
@@ -73,8 +113,11 @@ def run(ctx, histories, wire_schema):
                 o = dict(indent=indent, include_descriptions=True, include_introspection=False, include_custom_schema_directives=False)
                 ind = (" " * indent) if isinstance(indent, int) else indent
                 reqs.append({"op": "printT", "schema": ws["schema"], "indent": ind, "descriptions": True})
-                meta.append((src, o, sch.to_string(**o)))
+                real = sch.to_string(**o)
+                meta.append((src, o, real))
                 ctx.stat("textT-description-shapes")
+                if ":uniform:" in src:
+                    shape_roundtrip(ctx, src, sch, o, ind, real)
     except Exception as e:  # noqa
         ctx.fail("internal:shape-corpus:%s" % type(e).__name__, "the description-shape corpus could not be built / printed",
                  {"part": PART, "error": repr(e)})
